@@ -20,9 +20,14 @@ def harness():
     return vbuild.build_harness("c19_copy", "asan", ["src/c19_copy.c"])
 
 
+def harness_fault():
+    """the same executor linked with the allocation wrappers: 'failcopy k' fails the k-th allocation made while copying"""
+    return vbuild.build_harness("c19_copy", "allocfault", ["src/c19_copy.c"])
+
+
 @st.composite
 def cases(draw, tier="quick"):
-    kind = draw(st.sampled_from(["readers", "readers", "readers", "cz", "xw"]))
+    kind = draw(st.sampled_from(["readers", "readers", "readers", "cz", "xw", "failcopy"]))
     case = dict(kind=kind, pool=draw(st.integers(0, 6)))
     opst = st.tuples(st.sampled_from(["inode", "lsdir", "lspart", "resolve", "read", "block", "frag", "stream", "xattr", "xdesc", "id", "mseek", "root", "cross"]),
                      st.integers(0, 10 ** 6), st.integers(0, 10 ** 6), st.integers(0, 10 ** 6), st.integers(1, 9))
@@ -35,6 +40,11 @@ def cases(draw, tier="quick"):
         case["post"] = post
         case["drop_first"] = draw(st.sampled_from(["o", "c"]))
         case["drop_at"] = draw(st.integers(0, len(post)))
+    elif kind == "failcopy":
+        # the copy of the reader set runs out of memory at its k-th allocation: the original must not notice
+        case["pre"] = draw(st.lists(opst, min_size=0, max_size=8))
+        case["k"] = draw(st.integers(1, 45))
+        case["post"] = [("o", draw(opst)) for _ in range(draw(st.integers(2, 16)))]
     elif kind == "cz":
         case["cz"] = [(draw(st.sampled_from([1, 2, 4, 5, 6])), draw(st.one_of(st.just(0), st.integers(1, 40000), st.integers(1, 40000))), draw(st.integers(1, 10 ** 6)), draw(st.sampled_from([16, 100, 4096, 5000, 65536])), draw(st.integers(0, 1)))
                       for _ in range(draw(st.integers(1, 4)))]
@@ -62,6 +72,14 @@ def check_case(case, opts):
         if case["drop_at"] >= len(case["post"]):
             lines.append("drop " + case["drop_first"])
         lines.append("drop " + ("c" if case["drop_first"] == "o" else "o"))
+    elif case["kind"] == "failcopy":
+        pre, _ = c10.render(dict(ops=case["pre"]), P)
+        lines += ["pre " + l for l in pre]
+        lines.append("failcopy %d" % case["k"])
+        for who, op in [tuple(x) for x in case["post"]]:
+            l, _ = c10.render(dict(ops=[op]), P)
+            lines.append("o " + l[0])
+        lines.append("drop o")
     elif case["kind"] == "cz":
         lines += ["cz %d %d %d %d %d" % tuple(t) for t in case["cz"]]
     else:
@@ -70,7 +88,7 @@ def check_case(case, opts):
         of = os.path.join(sc, "ops.txt")
         with open(of, "w", encoding="latin-1") as fh:
             fh.write("\n".join(lines) + "\n")
-        r = vcommon.run([opts["bin"], P["path"], of], timeout=120)
+        r = vcommon.run([opts["bin_fault"] if case["kind"] == "failcopy" else opts["bin"], P["path"], of], timeout=120)
         out = r.out.decode(errors="replace")
         prog = "\n".join(lines)
         if r.timeout:
@@ -89,6 +107,9 @@ def check_case(case, opts):
         nontrivial = True
         if case["kind"] == "readers":
             nontrivial = len(case["pre"]) >= 1 and any(w == "o" for w, _ in case["post"]) and any(w == "c" for w, _ in case["post"])
+        if case["kind"] == "failcopy":
+            nontrivial = "delivered=1" in out
+            return CaseInfo(nontrivial, ["kind_failcopy", "fault_delivered" if nontrivial else "copy_complete_then_released"])
         return CaseInfo(nontrivial, ["kind_" + case["kind"]] + (["drop_%s_first" % case["drop_first"]] if case["kind"] == "readers" else []))
 
 
@@ -99,18 +120,20 @@ def strat(tier, opts):
 def main(tier, seed, scale=1.0):
     vbuild.build("asan")
     vbuild.build("plain")
+    vbuild.build("allocfault")
     binp = harness()
     n = int((12000 if tier == "quick" else 200000) * scale)
     res = Result(PROP)
     with Scratch("c19pool") as pd:
-        opts = {"prop": PROP, "bin": binp, "pool_dir": os.path.join(pd, "pool")}
+        opts = {"prop": PROP, "bin": binp, "bin_fault": harness_fault(), "pool_dir": os.path.join(pd, "pool")}
         c10.get_pool(opts)
         vcommon.run_corpus(PROP, check_case, opts, res)
         for d in vcommon.run_shards("c19", "check_case", "strat", n, seed, tier, opts):
             res.merge_shard(d)
     res.rule = ("Hypothesis programs: 0-12 operations before sqfs_copy() of every reader object, 2-24 interleaved operations on original and copy, "
                 "release of either object at a random point with the survivor used afterwards; compressor copies (gzip, lzma, xz, lz4, zstd, both "
-                "directions, with compression history) and xattr writer copies (0-40 sets before, 0-10 on the original only, 0-40 after); "
+                "directions, with compression history and option sets) and xattr writer copies (0-40 sets before, 0-10 on the original only, 0-40 after); "
+                "copies of the reader set that run out of memory at the k-th allocation (k=1..45), after which the original is compared with a twin; "
                 "non-trivial = >=1 state-building operation before the copy and >=1 operation on each object after it; oracle = twin object with "
                 "the same history answers identically, flushed bytes identical, ASan clean in both release orders")
     res.assumptions = ["images from the C10 pool (undamaged ones)", "digests are FNV-1a over payloads"]
@@ -121,6 +144,7 @@ def main(tier, seed, scale=1.0):
 def replay(path):
     vbuild.build("asan")
     vbuild.build("plain")
+    vbuild.build("allocfault")
     binp = harness()
     with Scratch("c19pool") as pd:
-        return vcommon.replay_case(PROP, check_case, path, {"bin": binp, "pool_dir": os.path.join(pd, "pool")})
+        return vcommon.replay_case(PROP, check_case, path, {"bin": binp, "bin_fault": harness_fault(), "pool_dir": os.path.join(pd, "pool")})
